@@ -5,6 +5,13 @@
     /repo/mujoco_warp/_src/solver.py on every run, at EVERY scalar type `K` (the tolerance test is an
     opaque Boolean `kernelConv`): the kernel's write list is exactly the write list of the hand-written
     protocol model `Mjw.Term.worldStep` (`Model/Term.lean`).
+  * Part 1b (`cg_*`) is the same for the CG kernel `Mjw.Gen.Solver._solve_cg_finalize__kernel` (write list =
+    `ctx.beta` write ++ the model's write list).  In both parts the tolerance test (`kernelConv`, `cgKernelConv`)
+    pins WHICH entries of the batched Model fields a world reads: `opt_tolerance[w % opt_tolerance.shape[0]]` and
+    `stat_meaninertia[w % stat_meaninertia.shape[0]]` — each wrapped with its own length — so a lookup with
+    another field's length breaks `kernel_refines_model` / `cg_kernel_refines_model`;
+    `cg_termination_own_world` / `newton_termination_own_world`: Models that agree on world `w`'s own entries
+    (batched vs. unbatched) produce identical termination writes for `w`.
   * Parts 2-5 are about the protocol model: per-world `(niter, done, overflow)`, global `nsolving`, one
     launch = one task per world in ANY order (`orders j` = task order of launch `j`, any permutation of
     `0..nworld-1`), host loops `runFixed` (`for _ in range(opt.iterations)`) and `runWhile`
@@ -126,6 +133,104 @@ theorem kernelConv_real (nv : Int) (tol mi gd nd imp : Int → ℝ) (sh0 sh1 w :
         ∨ Real.sqrt (gd w) / (mi (Int.tmod w sh1) * nv) < tol (Int.tmod w sh0)
         ∨ (5 * 10 ^ (-1 : ℤ)) * nd w / (mi (Int.tmod w sh1) * nv) < tol (Int.tmod w sh0)) := by
   simp [kernelConv, Gen.Solver._rescale, or_assoc]
+
+/-! ## 1b. The CG termination kernel `_solve_cg_finalize` performs the same per-world transition -/
+
+/-- the CG kernel's tolerance test `done = improvement < tol or gradient < tol`.  The world's OWN entries are
+    pinned here: `tolerance = opt_tolerance[worldid % opt_tolerance.shape[0]]`,
+    `meaninertia = stat_meaninertia[worldid % stat_meaninertia.shape[0]]` (each batched field is wrapped
+    with ITS OWN length). -/
+def cgKernelConv {K : Type} [Scalar K] (nv : Int) (opt_tolerance stat_meaninertia ctx_improvement_in
+    ctx_grad_dot_in : Int → K) (opt_tolerance_shape0 stat_meaninertia_shape0 : Int) (worldid : Int) : Bool :=
+  let tolerance : K := opt_tolerance (Int.tmod worldid opt_tolerance_shape0)
+  let meaninertia : K := stat_meaninertia (Int.tmod worldid stat_meaninertia_shape0)
+  (Scalar.lt (Gen.Solver._rescale nv meaninertia (ctx_improvement_in worldid)) tolerance)
+    || (Scalar.lt (Gen.Solver._rescale nv meaninertia (Scalar.sqrt (ctx_grad_dot_in worldid))) tolerance)
+
+/-- the Polak-Ribiere factor the kernel stores first for a running world -/
+def cgBetaWrite {K : Type} [Scalar K] (ctx_beta_num_in ctx_beta_den_in : Int → K) (worldid : Int) : Write K :=
+  Write.mk "ctx_beta_out" [worldid] (WVal.f (Scalar.max (Scalar.lit 0 0 : K)
+    ((ctx_beta_num_in worldid) / (Scalar.max (Scalar.lit 1 (-15) : K) (ctx_beta_den_in worldid))))) WKind.set
+
+/-- (1b) **cg_kernel_refines_model**: for every input and every thread id, the write list of the generated
+    `_solve_cg_finalize` kernel is the `ctx.beta` write (running worlds only) followed by the write list of
+    the model transition `worldStep` under the world's own tolerance test `cgKernelConv`. -/
+theorem cg_kernel_refines_model {K : Type} [Scalar K] (nv : Int) (opt_tolerance : Int → K) (opt_iterations : Int)
+    (stat_meaninertia ctx_beta_num_in ctx_beta_den_in ctx_improvement_in : Int → K)
+    (ctx_done_in : Int → Bool) (ctx_grad_dot_in : Int → K) (solver_niter_out overflow_out : Int → Int)
+    (ctx_beta_out : Int → K) (nsolving_out : Int → Int)
+    (ctx_done_out : Int → Bool) (opt_tolerance_shape0 stat_meaninertia_shape0 : Int) (warn : Bool) (tid0 : Int) :
+    Gen.Solver._solve_cg_finalize__kernel (K := K) nv opt_tolerance opt_iterations stat_meaninertia ctx_beta_num_in
+        ctx_beta_den_in ctx_improvement_in ctx_done_in ctx_grad_dot_in solver_niter_out overflow_out ctx_beta_out
+        nsolving_out ctx_done_out opt_tolerance_shape0 stat_meaninertia_shape0 warn tid0
+      = (if ctx_done_in tid0 = true then [] else [cgBetaWrite ctx_beta_num_in ctx_beta_den_in tid0])
+        ++ taskWrites tid0
+          (worldStep opt_iterations
+            (cgKernelConv nv opt_tolerance stat_meaninertia ctx_improvement_in ctx_grad_dot_in
+              opt_tolerance_shape0 stat_meaninertia_shape0 tid0)
+            ⟨solver_niter_out tid0, ctx_done_in tid0, overflow_out tid0⟩) := by
+  unfold Gen.Solver._solve_cg_finalize__kernel cgKernelConv cgBetaWrite
+  dsimp only
+  generalize hc : ((Scalar.lt (Gen.Solver._rescale nv (stat_meaninertia (Int.tmod tid0 stat_meaninertia_shape0))
+      (ctx_improvement_in tid0)) (opt_tolerance (Int.tmod tid0 opt_tolerance_shape0)))
+    || (Scalar.lt (Gen.Solver._rescale nv (stat_meaninertia (Int.tmod tid0 stat_meaninertia_shape0))
+      (Scalar.sqrt (ctx_grad_dot_in tid0))) (opt_tolerance (Int.tmod tid0 opt_tolerance_shape0)))) = c
+  cases hd : ctx_done_in tid0
+  · cases c
+    · by_cases hl : solver_niter_out tid0 + 1 = opt_iterations
+      · simp [worldStep, taskWrites, Write.lookupI, hl, ITERATIONS]
+      · simp [worldStep, taskWrites, Write.lookupI, hl]
+    · simp [worldStep, taskWrites, Write.lookupI]
+  · simp [worldStep, taskWrites]
+
+/-- (1b') **cg_termination_own_world**: the writes of a `_solve_cg_finalize` task to `solver_niter`, `overflow`,
+    `ctx.done`, `nsolving` depend on the batched fields only through the world's own entries
+    `opt_tolerance[w % shape]`, `stat_meaninertia[w % shape]`: two Models that agree there (e.g. the batched
+    Model and the unbatched Model holding world `w`'s values) give the same write list. -/
+theorem cg_termination_own_world {K : Type} [Scalar K] (nv : Int) (tolA tolB : Int → K) (opt_iterations : Int)
+    (miA miB ctx_beta_num_in ctx_beta_den_in ctx_improvement_in : Int → K)
+    (ctx_done_in : Int → Bool) (ctx_grad_dot_in : Int → K) (solver_niter_out overflow_out : Int → Int)
+    (ctx_beta_out : Int → K) (nsolving_out : Int → Int) (ctx_done_out : Int → Bool)
+    (shTolA shMiA shTolB shMiB : Int) (warn : Bool) (w : Int)
+    (htol : tolA (Int.tmod w shTolA) = tolB (Int.tmod w shTolB))
+    (hmi : miA (Int.tmod w shMiA) = miB (Int.tmod w shMiB)) :
+    Gen.Solver._solve_cg_finalize__kernel (K := K) nv tolA opt_iterations miA ctx_beta_num_in
+        ctx_beta_den_in ctx_improvement_in ctx_done_in ctx_grad_dot_in solver_niter_out overflow_out ctx_beta_out
+        nsolving_out ctx_done_out shTolA shMiA warn w
+      = Gen.Solver._solve_cg_finalize__kernel (K := K) nv tolB opt_iterations miB ctx_beta_num_in
+        ctx_beta_den_in ctx_improvement_in ctx_done_in ctx_grad_dot_in solver_niter_out overflow_out ctx_beta_out
+        nsolving_out ctx_done_out shTolB shMiB warn w := by
+  rw [cg_kernel_refines_model, cg_kernel_refines_model]
+  simp only [cgKernelConv, htol, hmi]
+
+/-- the same for the Newton kernel `_solve_done` -/
+theorem newton_termination_own_world {K : Type} [Scalar K] (nv : Int) (tolA tolB : Int → K) (opt_iterations : Int)
+    (miA miB ctx_grad_dot_in ctx_newton_decrement_in ctx_improvement_in : Int → K)
+    (ctx_done_in : Int → Bool) (solver_niter_out overflow_out nsolving_out : Int → Int)
+    (ctx_done_out : Int → Bool) (shTolA shMiA shTolB shMiB : Int) (warn : Bool) (w : Int)
+    (htol : tolA (Int.tmod w shTolA) = tolB (Int.tmod w shTolB))
+    (hmi : miA (Int.tmod w shMiA) = miB (Int.tmod w shMiB)) :
+    Gen.Solver._solve_done__kernel (K := K) nv tolA opt_iterations miA ctx_grad_dot_in
+        ctx_newton_decrement_in ctx_improvement_in ctx_done_in solver_niter_out overflow_out nsolving_out
+        ctx_done_out shTolA shMiA warn w
+      = Gen.Solver._solve_done__kernel (K := K) nv tolB opt_iterations miB ctx_grad_dot_in
+        ctx_newton_decrement_in ctx_improvement_in ctx_done_in solver_niter_out overflow_out nsolving_out
+        ctx_done_out shTolB shMiB warn w := by
+  rw [kernel_refines_model, kernel_refines_model]
+  simp only [kernelConv, htol, hmi]
+
+/-- non-vacuity of the hypotheses: a batched tolerance of length 3 and the unbatched Model of world 2's value
+    (lengths 3 vs 1, meaninertia (1,) in both) agree at world 2; they do NOT agree if world 2 is wrapped with the
+    neighbouring field's length 1 (it would read world 0's tolerance). -/
+example : (fun i : Int => if i = 2 then (7 : Int) else 1) (Int.tmod 2 3) = (fun _ : Int => (7 : Int)) (Int.tmod 2 1) := by decide
+example : (fun i : Int => if i = 2 then (7 : Int) else 1) (Int.tmod 2 1) ≠ (fun _ : Int => (7 : Int)) (Int.tmod 2 1) := by decide
+
+/-- at `K = ℝ` the CG test reads `imp/(mi·nv) < tol ∨ √gd/(mi·nv) < tol` with the world's own entries -/
+theorem cgKernelConv_real (nv : Int) (tol mi imp gd : Int → ℝ) (sh0 sh1 w : Int) :
+    cgKernelConv nv tol mi imp gd sh0 sh1 w = true ↔
+      (imp w / (mi (Int.tmod w sh1) * nv) < tol (Int.tmod w sh0)
+        ∨ Real.sqrt (gd w) / (mi (Int.tmod w sh1) * nv) < tol (Int.tmod w sh0)) := by
+  simp [cgKernelConv, Gen.Solver._rescale]
 
 /-! ## 2. Invariants of the protocol model and equivalence of the two host loops -/
 
